@@ -43,6 +43,13 @@ statement only, never from `_depends`):
   different nested values, detach, re-attach, leaf assignment) as assignment / update / batch on the owner /
   batch on the top object: exactly one call of every method whose reached value changed, none of the others.
 
+* dependency-list family (bounded/c06_deps.py): function form with Parameter-object dependencies of three objects in
+  EVERY ORDER (every permutation of every subset of 2-4 of five Parameters, 0-2 of them as keywords; interleaved
+  owners) under set / update / batch on every owner: one call per operation changing a listed Parameter;  EMPTY
+  dependency lists (`depends(watch=True)`, `depends(on_init=True, watch=True)`, `depends()`) and methods naming such
+  methods (directly / through a further method / next to a parameter): never called after construction, exactly one
+  on_init call.
+
 Lenient readings (never demand more than the statement):
 
 * a method hit by n >= 2 separate assignments made by other methods inside ONE top-level step
@@ -71,6 +78,7 @@ from concurrent.futures import ProcessPoolExecutor
 
 from bounded._api import Bounded, REPLAY_HEADER
 from bounded import c06_mix
+from bounded import c06_deps
 from bounded import c07_multi
 
 # ------------------------------------------------------------------------------------------
@@ -1287,6 +1295,9 @@ def _run(tier, seed):
         dchunks, dtext = c07_multi.plan('C06', tier, seed)
         fut_d = [ex.submit(c07_multi.run_chunk, c) for c in dchunks]
         B.note(dtext)
+        # shape of the dependency list: function form in every order / empty lists (bounded/c06_deps.py)
+        fut_l = [ex.submit(c06_deps.run_chunk, c) for c in c06_deps.tasks(tier, seed)]
+        B.note(c06_deps.bound_text(tier))
         for fu in fut_f:
             for ncases, keys, cc, viols in fu.result():
                 for k in keys:
@@ -1318,6 +1329,7 @@ def _run(tier, seed):
                     sfv.append(viol)
         mix_results = [fu.result() for fu in fut_m]
         deep_results = [fu.result() for fu in fut_d]
+        list_results = [fu.result() for fu in fut_l]
     check_parse(B)
 
     # ---- representatives
@@ -1372,6 +1384,7 @@ def _run(tier, seed):
                            (rep['lo'], rep['hi']))))
     reports += c06_mix.collect(B, mix_results)
     reports += c07_multi.collect(B, 'C06', deep_results)
+    reports += c06_deps.collect(B, list_results)
     reports.sort(key=lambda r: (r[0], len(r[1]), r[1]))
     per_clause, kept = {}, []
     for r in reports:
